@@ -300,6 +300,16 @@ func (e *Enc) callStatic(fr *Frame, fn *ssa.Function, args []Val, bind []Val, gu
 	if opaque {
 		ct = nil
 	}
+	forceInline := false
+	if e.contract != nil && e.contract.Opts["inline"] != "" && fn.Blocks != nil {
+		// `opt inline=Name1,Name2`: calls of these functions are encoded from their bodies here even
+		// if they have a contract of their own (which is still verified separately)
+		for _, nm := range strings.Split(e.contract.Opts["inline"], ",") {
+			if strings.TrimSpace(nm) == fn.Name() {
+				forceInline = true
+			}
+		}
+	}
 	if e.contract != nil && e.contract.Opts["effectfree"] != "" {
 		// `opt effectfree=Name1,Name2`: calls of these functions return an arbitrary result and do
 		// not touch modelled state (assumption, reported in the evidence)
@@ -310,10 +320,10 @@ func (e *Enc) callStatic(fr *Frame, fn *ssa.Function, args []Val, bind []Val, gu
 			}
 		}
 	}
-	if ct != nil && !ct.Inline {
+	if ct != nil && !ct.Inline && !forceInline {
 		return e.applyContract(fr, ct, fn, fn.Signature, fn.Name(), args, guard, st, pos)
 	}
-	if !opaque && fn.Blocks != nil && ((ct != nil && ct.Inline) || bind != nil || fn.Parent() != nil || e.autoInline(fn, depth)) {
+	if !opaque && fn.Blocks != nil && ((ct != nil && ct.Inline) || forceInline || bind != nil || fn.Parent() != nil || e.autoInline(fn, depth)) {
 		if depth > 6 {
 			panic(unsupported("inlining too deep at " + fn.String()))
 		}
@@ -321,7 +331,7 @@ func (e *Enc) callStatic(fr *Frame, fn *ssa.Function, args []Val, bind []Val, gu
 		if fr != nil {
 			path = fr.path
 		}
-		explicit := (ct != nil && ct.Inline) || bind != nil || fn.Parent() != nil
+		explicit := (ct != nil && ct.Inline) || forceInline || bind != nil || fn.Parent() != nil
 		if explicit {
 			res, _ := e.inline(fr, fn, args, bind, guard, st, depth+1, path+">"+fn.Name())
 			return res
